@@ -583,4 +583,12 @@ def expectedSiteCounts : List (String × Nat) :=
 
 def siteCount (sites : List Site) (f : String) : Nat := (sites.filter fun s => s.func == f).length
 
+/-- the masking sites that are legitimately conditional (per function, private helpers inlined): the image-or-k-space output
+alternatives and the training-only target projection of the SSL / JSSL engines, KIKINet's re-masking between iterations.
+Every other site is executed on every call: a masked operator whose `where` / `apply_mask` moves under an `if` / a flag
+changes this table. -/
+def expectedConditionalSites : List (String × Nat) :=
+  [("JSSLMRIModelEngine._do_iteration", 3), ("KIKINet.forward", 1), ("SSLMRIModelEngine._do_iteration", 3),
+   ("VSharpNetJSSLEngine._do_iteration", 2), ("VSharpNetSSLEngine._do_iteration", 3)]
+
 end DirectVerif.Mask
